@@ -226,6 +226,7 @@ class Lib:
         for _nm, _meth in (("min", "min"), ("amin", "min"), ("max", "max"), ("amax", "max"), ("all", "all"), ("any", "any")):
             np.setdefault(_nm, LibFunc("np." + _nm, (lambda i, a, *args, _m=_meth, **kw: self.arr_method(i, _arr(a, i), _m, list(args), kw))))
         np.setdefault("isin", LibFunc("np.isin", self.np_isin))
+        np.setdefault("count_nonzero", LibFunc("np.count_nonzero", self.np_count_nonzero))
         np.setdefault("stack", LibFunc("np.stack", self.np_stack))
         np["full_like"] = LibFunc("np.full_like", self.np_full_like)
         np["power"] = LibFunc("np.power", lambda i, a, b: i.binop("**", a, b))
@@ -602,6 +603,20 @@ class Lib:
         if as_float:
             return A.new_arr((n,), lambda idx: sv.to_real(fn(idx)), dt)
         return A.new_arr((n,), fn, dt)
+
+    def np_count_nonzero(self, interp, a, axis=None, **kw):
+        """np.count_nonzero(a, axis): the number of elements that are True (boolean arrays) / different from zero = the sum of the
+        0/1 indicator along the axis (an integer)"""
+        if kw:
+            raise EngineError("np.count_nonzero with options")
+        a = _arr(a, interp)
+        if a.dtype == "complex":
+            raise EngineError("np.count_nonzero of a complex array")
+        if a.dtype == "bool":
+            ind = A.ew(lambda x: ite(x, 1, 0), a, dtype="int")
+        else:
+            ind = A.ew(lambda x: ite(sv.cmp("!=", x, 0), 1, 0), a, dtype="int")
+        return A.reduce_sum(ind, norm(axis) if axis is not None else None)
 
     def np_isin(self, interp, element, test_elements, **kw):
         """np.isin(a, values) for a finite Python collection of values: elementwise  OR_k a[idx] == values[k]"""
